@@ -292,6 +292,15 @@ def run_oracle01(key):
             bad = _check_mapping(pa, mask, m, what)
             if bad:
                 return bad
+            # calling the aligner applies exactly the mapping it calculates (also when it is the same
+            # non-identity permutation in every bin)
+            try:
+                called = al(mask, ref_mask)
+            except Exception as e:  # noqa
+                return viol(f'{what}.__call__ raised {e!r}')
+            if tol.exact(np.asarray(called), R.apply_mapping_loop(mask, np.asarray(m)), '__call__'):
+                return viol(f'{what}: __call__ does not return the mask re-ordered with calculate_mapping '
+                            f'(mapping {np.asarray(m).tolist()})')
             r, amb = R.oracle(mask, ref_mask, metric, alg)
             if not amb and not np.array_equal(m, r):
                 return viol(f'{what}: mapping differs from the reference per-bin assignment',
@@ -302,6 +311,26 @@ def run_oracle01(key):
 
 
 # ---------------------------------------------------------------- (c) generic masks
+
+def run_apply_dtypes(key):
+    """apply_mapping with a mapping stored in a small integer dtype (as a caller may keep it) and many bins."""
+    pa = _pa()
+    K, F, T, dt, seed = key['K'], key['F'], key['T'], key['dtype'], key['seed']
+    r = A.rng(seed, 'c14applydt', K, F, T)
+    mask = r.uniform(0.05, 1.0, size=(K, F, T))
+    mapping = np.stack([r.permutation(K) for _ in range(F)], axis=1).astype(dt)
+    mask.setflags(write=False)
+    mapping.setflags(write=False)
+    try:
+        got = np.asarray(pa.apply_mapping(mask, mapping))
+    except Exception as e:  # noqa
+        return viol(f'apply_mapping raised {e!r} for a {dt} mapping')
+    want = R.apply_mapping_loop(mask, mapping.astype(np.int64))
+    bad = tol.exact(got, want, f'apply_mapping with a {dt} mapping (K={K}, F={F})')
+    if bad:
+        return viol(bad)
+    return ok(outcome=tol.digest(want), evals=1, states=1, transitions=F)
+
 
 def run_generic(key):
     pa = _pa()
@@ -634,6 +663,13 @@ def subchecks(tier, seed):
     subs.append(Sub('masks_generic', ('K', 'F', 'T', 'metric', 'alg', 'kind', 'seed'),
                     generic_cases, run_generic,
                     bound=dict(K='1..6', F='odd <=33', kinds=['generic', 'const', 'zero', 'tied'])))
+
+    def applydt_cases():
+        for K in (2, 4, 6):
+            for F in (1, 9, 65, 99, 257):
+                for dt in ('int8', 'uint8', 'int16', 'uint16', 'int32', 'int64', 'uint64'):
+                    yield (K, F, 3, dt, seed)
+    subs.append(Sub('apply_mapping_index_dtypes', ('K', 'F', 'T', 'dtype', 'seed'), applydt_cases, run_apply_dtypes))
 
     def inline_cases():
         for K in (2, 3, 4):
